@@ -178,7 +178,42 @@ func scenarioC18(c *hlib.RunCtx) *hlib.Violation {
 			}
 			it := bh.Objects(ctx, prefix)
 			var got []string
-			for {
+			// Sometimes a second listing is started and read while this one is
+			// still being read (a handler that lists inside a loop over a
+			// listing, or two handlers sharing the bucket).
+			nestAfter := -1
+			if t.Bool(1, 3) {
+				nestAfter = t.Draw(4)
+			}
+			for i := 0; ; i++ {
+				if i == nestAfter {
+					p2 := ""
+					if len(model) > 0 {
+						keys := sortedKeys(model)
+						k := keys[t.Draw(len(keys))]
+						p2 = k[:t.Draw(len(k)+1)]
+					}
+					it2 := bh.Objects(ctx, p2)
+					var got2, want2 []string
+					for {
+						n, err := it2.Next()
+						if err != nil {
+							break
+						}
+						got2 = append(got2, n)
+					}
+					for n := range model {
+						if strings.HasPrefix(n, p2) {
+							want2 = append(want2, n)
+						}
+					}
+					sort.Strings(got2)
+					sort.Strings(want2)
+					if !reflect.DeepEqual(got2, want2) && !(len(got2) == 0 && len(want2) == 0) {
+						fail("list", "listing prefix %q (started while another listing was being read) returned %v, the stored names with that prefix are %v", p2, got2, want2)
+					}
+					s.Probe("overlapping-listings")
+				}
 				n, err := it.Next()
 				if errors.Is(err, ErrObjectIteratorDone) {
 					break
